@@ -16,7 +16,7 @@ CONFIGS = {
     "quick": ["DelSym_tab_q.cfg", "DelSym_ver_q.cfg", "DelSym_lat_q.cfg"],
     "thorough": ["DelSym_tab_t.cfg", "DelSym_tab3_t.cfg", "DelSym_ver_t.cfg", "DelSym_lat_t.cfg"],
 }
-SAMPLE = {"quick": 3000, "thorough": 40000}
+SAMPLE = {"quick": 3000, "thorough": 30000}
 
 
 def _nontrivial(case: dict, v: dict) -> bool:
